@@ -1,10 +1,11 @@
 """C15 (see DESIGN.md section 6)."""
-from vlib.framework import PUnit, LUnit, BUnit
+from vlib.framework import PUnit, LUnit, BUnit, LeanUnit
 from bounded import b_build as B
 from contracts import virtual_sites as VS
 
 from contracts import templates as TP
-P_UNITS = [PUnit("virtual-site-constructions", VS.CONTRACTS, VS.REG), PUnit("template-relative-to-centre", TP.CONTRACTS, TP.REG), LUnit("virtual-site-dispatch-table", VS.lemma_dispatch_table)]
+P_UNITS = [PUnit("virtual-site-constructions", VS.CONTRACTS, VS.REG), PUnit("template-relative-to-centre", TP.CONTRACTS, TP.REG), LUnit("virtual-site-dispatch-table", VS.lemma_dispatch_table),
+           LeanUnit("zero-centre-certificate", "lean/Centroid.lean")]
 
 
 def build(tier, seed):
